@@ -34,15 +34,16 @@ func appendPhi(p *ssa.Phi) (init, elems ssa.Value, ok bool) {
 		}
 		return nil
 	}
-	if len(p.Edges) != 2 {
+	edges := distinctEdges(p)
+	if len(edges) != 2 {
 		return nil, nil, false
 	}
 	for i := 0; i < 2; i++ {
-		if el := findAppend(p.Edges[1-i], 0); el != nil {
-			if _, isPhi := stripConv(p.Edges[i]).(*ssa.Phi); isPhi && reachesPhi(p.Edges[i], p, 0) {
+		if el := findAppend(edges[1-i], 0); el != nil {
+			if _, isPhi := stripConv(edges[i]).(*ssa.Phi); isPhi && reachesPhi(edges[i], p, 0) {
 				continue
 			}
-			return p.Edges[i], el, true
+			return edges[i], el, true
 		}
 	}
 	return nil, nil, false
@@ -105,4 +106,135 @@ func arrayLiteral(a *ssa.Alloc) []ssa.Value {
 		}
 	}
 	return out
+}
+
+// distinctEdges: phi operands with duplicates (several back-edges carrying the
+// same value) collapsed.
+func distinctEdges(p *ssa.Phi) []ssa.Value {
+	var out []ssa.Value
+	for _, e := range p.Edges {
+		dup := false
+		for _, o := range out {
+			if o == e {
+				dup = true
+			}
+		}
+		if !dup {
+			out = append(out, e)
+		}
+	}
+	return out
+}
+
+// base renders the base of an lvalue path: an address-valued step
+// (&x.f, &x[i]) is rendered as the path itself, without the address marker.
+func (r *renderer) base(v ssa.Value, d int) string {
+	s := r.render(v, d)
+	for len(s) > 0 && s[0] == '&' {
+		s = s[1:]
+	}
+	return s
+}
+
+// readOnlyAddr: an address derived from a local cell is only loaded from
+// (possibly through further field/index steps), never stored through or escaped.
+func readOnlyAddr(v ssa.Value, d int) bool {
+	if d > 6 {
+		return false
+	}
+	refs := v.Referrers()
+	if refs == nil {
+		return true
+	}
+	for _, r := range *refs {
+		switch x := r.(type) {
+		case *ssa.UnOp:
+			if x.Op != token.MUL {
+				return false
+			}
+		case *ssa.DebugRef:
+		case *ssa.FieldAddr:
+			if !readOnlyAddr(x, d+1) {
+				return false
+			}
+		case *ssa.IndexAddr:
+			if x.X != v || !readOnlyAddr(x, d+1) {
+				return false
+			}
+		default:
+			return false
+		}
+	}
+	return true
+}
+
+// literalStores finds every store / map update in f whose value is a struct
+// literal of the named type (type name suffix match) and returns, per field,
+// the set of canonical shapes stored.
+func literalStores(f *ssa.Function, typeSuffix string) map[string][]string {
+	acc := map[string]map[string]bool{}
+	add := func(v ssa.Value) {
+		a := localCell(v)
+		if a == nil {
+			return
+		}
+		if !hasSuffixType(derefType(a.Type()), typeSuffix) {
+			return
+		}
+		for k, fv := range structLiteralFields(v) {
+			if acc[k] == nil {
+				acc[k] = map[string]bool{}
+			}
+			acc[k][exprStr(fv, shapeOpts)] = true
+		}
+	}
+	allInstrs(f, func(in ssa.Instruction) {
+		switch x := in.(type) {
+		case *ssa.Store:
+			if localCell(x.Addr) != nil && x.Addr == ssa.Value(localCell(x.Addr)) {
+				return // initialisation of the literal itself
+			}
+			add(x.Val)
+		case *ssa.MapUpdate:
+			add(x.Value)
+		}
+	})
+	out := map[string][]string{}
+	for k, m := range acc {
+		for s := range m {
+			out[k] = append(out[k], s)
+		}
+		sortStrings(out[k])
+	}
+	return out
+}
+
+func hasSuffixType(t types.Type, suffix string) bool {
+	s := types.TypeString(t, nil)
+	return len(s) >= len(suffix) && s[len(s)-len(suffix):] == suffix
+}
+
+func sortStrings(s []string) {
+	for i := 1; i < len(s); i++ {
+		for j := i; j > 0 && s[j] < s[j-1]; j-- {
+			s[j], s[j-1] = s[j-1], s[j]
+		}
+	}
+}
+
+// initStore: the alloc has exactly one whole-value Store (its other uses may
+// pass its address on): returns the stored value.
+func initStore(a *ssa.Alloc) ssa.Value {
+	var val ssa.Value
+	n := 0
+	for _, ref := range *a.Referrers() {
+		if st, ok := ref.(*ssa.Store); ok && st.Addr == ssa.Value(a) {
+			n++
+			val = st.Val
+		}
+	}
+	if n == 1 {
+		return val
+	}
+	return nil
 }
